@@ -16,7 +16,8 @@ from .. import layout as L, models, spec
 from ..adx import MODES, attempt, error_nodes, make_retort, mode_name
 from ..eq import strict_eq
 
-NAMES = ["a", "b_", "c_d", "long_name_x", "e1", "from_", "x__", "http_url", "q", "item_list", "v2_beta"]
+# ab1cd_field / x2y_z: a digit INSIDE a word starts no new word (defect #94: str.title capitalised the letter after it)
+NAMES = ["a", "b_", "c_d", "long_name_x", "e1", "from_", "x__", "http_url", "q", "item_list", "v2_beta", "my_ab1cd_field", "x2y_z"]
 STYLES = list(NameStyle)
 EXTRA_KEYS = ["zz1", "__extra__", "Zz", "unknown key"]
 
